@@ -19,6 +19,14 @@ PLAN = {
 }
 
 ASSUME = {
+    'C06': ['exhaustive for the 1-, 2- and (in the thorough tier, or for 8 representatives in the quick tier) 3-byte payload spaces; 5-byte types: corner products of the two 16-bit halves plus stratified IEEE-754 classes; strings and structs by structured sampling',
+            'byte identity is demanded for the exact families only, modulo the reserved bits / documented replacements written down in spec/Dpt.tla (CanonB)'],
+    'C07': ['float inputs: every bound, its float32 neighbours, the neighbours of every exponent-switch point, log-uniform and dense samples; NaN / Inf are outside the statement',
+            'magnitudes are compared in TLA+ as exact fixed-point numbers (units of 1/1600) derived from the IEEE-754 bit pattern; one unit of slack for flooring',
+            'documented ranges as in the library documentation (9.xxx: +-670760 unless tighter), 8.003/8.010 +-327.68, 8.004 +-3276.8'],
+    'C08': ['InRange uses the documented ranges of spec/Dpt.tla (written from the KNX datapoint document and the type comments, not from the decoding code paths)'],
+    'C19': ['declared types are the exported DPT_* type declarations found by go/parser in /repo/knx/dpt; known finding C19-F1 (name 14.1200) is matched by name',
+            'the data-race clause is decided by the Go race detector (thorough tier)'],
     'C11': ['the reference layout (spec/Cemi.tla) is written from the cEMI specification; byte equality with it IS the property here',
             'the Go side only enumerates the domain and projects values to/from the record vocabulary (table-driven glue)'],
     'C18': ['address text is tokenised by the harness (split on the separator, strconv.Atoi); lexical variants that Atoi itself accepts ("+5", "007") are outside the token model'],
@@ -94,6 +102,16 @@ def check(pid, tier):
         if p.returncode != 0 or not os.path.exists(recfile):
             raise vlib.Inconclusive('record logger failed:\n' + p.stdout[-3000:])
         bad, nrec, tstates = judge_records(w, recfile, pid)
+        race_note = None
+        if pid == 'C19' and tier == 'thorough':
+            # the concurrency clause under the race detector (the schedules come from 16 goroutines x 400 operations)
+            rb = vlib.build_test(w, './codec/', w.path('codec_race.test'), race=True, tags='verif')
+            env2 = dict(env)
+            env2.update(VERIF_OUT=w.path('records_race.ndjson'), GORACE='halt_on_error=1')
+            pr = subprocess.run([rb, '-test.run', '^TestC19$', '-test.timeout', '0'], env=env2, cwd=w.dir, stdout=subprocess.PIPE, stderr=subprocess.STDOUT, text=True)
+            if 'DATA RACE' in pr.stdout:
+                race_note = pr.stdout[-3000:]
+                bad.append(dict(run=0, n=0, line=0, tags=['C19.NoRace'], record=dict(k='race', report=race_note[:1500])))
         pre = pid + '.'
         listed = {f['tag']: f for f in known.get('findings', []) if f['property'] == pid}
         viol, kf = [], {}
@@ -120,6 +138,7 @@ def check(pid, tier):
                 by.setdefault(t, []).append(x)
             replay = vlib.save_replay(pid, '%s-seed%d' % (tag.replace('.', '_'), vlib.seed()),
                                       dict(kind='codec-records', test=PLAN[pid]['test'], tags={t: len(v) for t, v in by.items()},
+                                           by_name={t: dict(__import__('collections').Counter(x['record'].get('name', x['record'].get('k')) for x in v).most_common(40)) for t, v in by.items()},
                                            records=[x['record'] for t, v in by.items() for x in v[:5]]))
             print('VIOLATION property=%s replay=%s' % (pid, replay))
             print('  clauses flagged: %s' % {t: len(v) for t, v in by.items()})
